@@ -187,6 +187,13 @@ func (i *Interpreter) getDirectorConfig(d *ast.DirectorDeclaration) (*value.Dire
 						conf.Type,
 					)
 				}
+				if backend.Weight < 0 || backend.Weight > math.MaxInt32 {
+					return nil, exception.Runtime(
+						&t.GetMeta().Token,
+						".weight property must be a positive 32-bit integer, got %d",
+						backend.Weight,
+					)
+				}
 			case "chash":
 				if backend.Id == "" {
 					return nil, exception.Runtime(
@@ -269,11 +276,18 @@ func (i *Interpreter) canDetermineBackend(dc *value.DirectorConfig) error {
 
 // Random director
 // https://developer.fastly.com/reference/vcl/declarations/director/#random
+// Upper bound of the retries of a random director (1 second of waiting in total)
+const maxRandomDirectorRetries = 100
+
 func (i *Interpreter) directorBackendRandom(dc *value.DirectorConfig) (*value.Backend, error) {
 	// For random director, .retries value should use backend count as default.
 	maxRetry := dc.Retries
 	if maxRetry == 0 {
 		maxRetry = len(dc.Backends)
+	}
+	// Every retry waits 10ms: keep a huge .retries from stalling the simulator for good
+	if maxRetry > maxRandomDirectorRetries {
+		maxRetry = maxRandomDirectorRetries
 	}
 
 	for retry := 0; retry < maxRetry; retry++ {
@@ -284,24 +298,27 @@ func (i *Interpreter) directorBackendRandom(dc *value.DirectorConfig) (*value.Ba
 			continue
 		}
 
-		lottery := make([]int, 1000)
-		var current int
-		for index, v := range dc.Backends {
-			// Skip if backend is unhealthy
-			if !v.Backend.Healthy.Load() {
-				continue
-			}
-			for i := 0; i < v.Weight; i++ {
-				lottery[current] = index
-				current++
+		// Draw a ticket out of the total weight of the healthy backends and find its owner.
+		// (A fixed table of 1000 tickets overflowed as soon as the weights added up to more.)
+		var total int64
+		for _, v := range dc.Backends {
+			if v.Backend.Healthy.Load() && v.Weight > 0 {
+				total += int64(v.Weight)
 			}
 		}
-
-		rand.New(rand.NewSource(time.Now().Unix()))
-		lottery = lottery[0:current]
-		item := dc.Backends[lottery[rand.Intn(current)]]
-
-		return item.Backend, nil
+		if total <= 0 {
+			return nil, ErrAllBackendsFailed
+		}
+		ticket := rand.Int63n(total)
+		for _, v := range dc.Backends {
+			if !v.Backend.Healthy.Load() || v.Weight <= 0 {
+				continue
+			}
+			if ticket < int64(v.Weight) {
+				return v.Backend, nil
+			}
+			ticket -= int64(v.Weight)
+		}
 	}
 
 	return nil, ErrQuorumWeightNotReached
